@@ -63,6 +63,8 @@ pub enum EffKind {
     Task,
     Thunk(Vec<ActId>),
     Function,
+    /// a task that stops ANOTHER store of the program from this store's pool thread
+    StopOther { store: usize },
 }
 
 #[derive(Serialize, Deserialize, Clone, Debug, PartialEq)]
